@@ -11,7 +11,8 @@
    and mmap coherence are assumed as modelled. *)
 From Coq Require Import List Arith.
 Import ListNotations.
-From BC Require Import Conc.Lin Conc.StoreLTS Conc.StoreSafe Conc.StoreLin Conc.StoreLive Conc.MergeLTS Conc.MergeSafe.
+From BC Require Import Conc.Lin Conc.StoreLTS Conc.StoreSafe Conc.StoreLin Conc.StoreLive.
+From BC Require Conc.MergeLTS Conc.MergeSafe.
 
 (* 1. No schedule makes any thread panic: whatever the interleaving and however the bytes of a record
       trickle into the file, the slice a get takes of its mapping is in range. *)
@@ -61,17 +62,18 @@ Print Assumptions C04_pinned_rule_refuted.
       abstract map.  [J T s]: index entries point at existing records, readers hold what the index says
       (true of every quiescent state: J_init); [run_ok]: a merge starts with a work list that covers
       every index entry lying in a selected file. *)
-Theorem C04_gets_vs_merge : forall T es s s', J T s -> run_ok T s es -> mrun T true s es = Some s' ->
-  (forall t, readers s' t <> RFailed) /\
-  (forall t k v c, readers s' t = RDone k v c -> v = MergeLTS.gmap s k) /\
+Theorem C04_gets_vs_merge : forall T es s s', MergeSafe.J T s -> MergeSafe.run_ok T s es -> MergeLTS.mrun T true s es = Some s' ->
+  (forall t, MergeLTS.readers s' t <> MergeLTS.RFailed) /\
+  (forall t k v c, MergeLTS.readers s' t = MergeLTS.RDone k v c -> v = MergeLTS.gmap s k) /\
   (forall k, MergeLTS.gmap s' k = MergeLTS.gmap s k).
-Proof. exact merge_vs_gets. Qed.
+Proof. exact MergeSafe.merge_vs_gets. Qed.
 Print Assumptions C04_gets_vs_merge.
 
 (* 7. ... and it is the guard that does it: when the reader drops it after the lookup, an explicit
       schedule makes a get read an unlinked file (the shape of seeded change C04-A / C01-B). *)
-Theorem C04_unguarded_reader_refuted : exists s, mrun 1 false demo_state demo_schedule = Some s /\ readers s 0 = RFailed.
-Proof. exact unguarded_reader_fails. Qed.
+Theorem C04_unguarded_reader_refuted :
+  exists s, MergeLTS.mrun 1 false MergeSafe.demo_state MergeSafe.demo_schedule = Some s /\ MergeLTS.readers s 0 = MergeLTS.RFailed.
+Proof. exact MergeSafe.unguarded_reader_fails. Qed.
 Print Assumptions C04_unguarded_reader_refuted.
 
 Example C04_example :
